@@ -323,7 +323,7 @@ impl<S: AnyScan> Sys for Iso<S> {
 fn c15_for<S: AnyScan>(cfg: &Cfg, rep: &mut Report, timeouts: &[u64]) {
     // exhaustive two-channel product for ordered channel pairs
     let mut pairs: Vec<(u8, u8)> = Vec::new();
-    if cfg.thorough && !cfg.as_c18 {
+    if cfg.thorough && cfg.release && !cfg.as_c18 {
         for a in 0..16u8 {
             for b in 0..16u8 {
                 if a != b {
@@ -354,6 +354,30 @@ fn c15_for<S: AnyScan>(cfg: &Cfg, rep: &mut Report, timeouts: &[u64]) {
             rep.max("max_explorer_depth", st.depth);
         }
     }
+    if !cfg.as_c18 && S::NAME != "cc14" {
+        // spec dictionary on a manager channel and a member channel, two values per channel
+        for (a, b, vals) in [(0u8, 3u8, [0u8, 6u8]), (15, 12, [0, 6]), (0, 1, [0, 3])] {
+            let t = *timeouts.last().unwrap();
+            // two values on the manager channel, one on the member channel
+            let mut alpha: Vec<Ev> = S::alphabet(&[a], true, &vals)
+                .into_iter()
+                .filter(|e| match e.as_cc() {
+                    Some((_, n, _)) => S::contributing(n) || matches!(n, 7 | 120 | 121),
+                    None => true,
+                })
+                .collect();
+            for e in S::alphabet(&[b], false, &vals) {
+                if !alpha.contains(&e) {
+                    alpha.push(e);
+                }
+            }
+            let (st, _) = explore(cfg, Iso::<S>::new(t, [a, b]), &alpha, 1_500_000, rep, false);
+            tot_states += st.states;
+            tot_trans += st.transitions;
+            all_fix &= st.fixpoint;
+            rep.count(&format!("c15_{}_dictionary_pair_runs", S::NAME), 1);
+        }
+    }
     rep.states += tot_states;
     rep.transitions += tot_trans;
     rep.evaluations += tot_trans;
@@ -380,7 +404,7 @@ fn c15_for<S: AnyScan>(cfg: &Cfg, rep: &mut Report, timeouts: &[u64]) {
             let ticks = [1, tt / 2, tt.saturating_sub(1), tt, tt + 1];
             let len = rng.range(10, 300);
             let chans = *rng.pick(&[2u8, 3, 4, 16, 16]);
-            let nvalues = *rng.pick(&[2u8, 4, 128]);
+            let nvalues = *rng.pick(&[2u8, 4, 128, 200, 200]);
             let mut sys = Iso::<S>::new(t, [0, 1]);
             let mut hist: Vec<Ev> = Vec::with_capacity(len as usize);
             let mut reported = false;
@@ -532,6 +556,11 @@ fn c16_for<S: AnyScan>(cfg: &Cfg, rep: &mut Report, timeouts: &[u64]) {
     for (i, p) in vp.iter().enumerate().skip(1) {
         setups.push((*timeouts.last().unwrap(), crate::util::rotating_channel(cfg, i), *p));
     }
+    if S::NAME != "cc14" {
+        for (i, p) in crate::util::dict_pairs(cfg, 2, 1).iter().enumerate() {
+            setups.push((*timeouts.last().unwrap(), [0u8, 15, 9][i % 3], *p));
+        }
+    }
     for (t, chan, vals) in setups {
         let mut msgs = noncontributing_messages::<S>(chan, full);
         if cfg.as_c18 && !cfg.thorough {
@@ -578,7 +607,7 @@ fn c16_for<S: AnyScan>(cfg: &Cfg, rep: &mut Report, timeouts: &[u64]) {
             let ticks = [1, tt / 2, tt.saturating_sub(1), tt, tt + 1];
             let len = rng.range(5, 120);
             let chans = *rng.pick(&[1u8, 2, 16]);
-            let nvalues = *rng.pick(&[2u8, 4, 128]);
+            let nvalues = *rng.pick(&[2u8, 4, 128, 200]);
             let mut plain = S::make(t);
             let mut noisy = S::make(t);
             let mut now = 0u64;
@@ -903,6 +932,11 @@ fn c17_for<S: AnyScan>(cfg: &Cfg, rep: &mut Report, timeouts: &[u64]) {
     for (i, p) in vp.iter().enumerate().skip(1) {
         let (a, b) = (crate::util::rotating_channel(cfg, i), crate::util::rotating_channel(cfg, i + 7));
         setups.push((*timeouts.last().unwrap(), [a, b], *p));
+    }
+    if S::NAME != "cc14" && !cfg.as_c18 {
+        for (i, p) in crate::util::dict_pairs(cfg, 2, 1).iter().enumerate() {
+            setups.push((*timeouts.last().unwrap(), [[0u8, 15, 9][i % 3], 3], *p));
+        }
     }
     for (t, chans, vals) in setups {
         let alpha = if S::NAME == "cc14" {
